@@ -508,8 +508,10 @@ impl<'c> Hist<'c> {
 			if quartet.iter().all(|k| k[..6] == quartet[0][..6]) {
 				let one_tx = self.rng.chance(1, 2);
 				let mut tx = vec![];
+				let contract = self.cfg.cols[0].preimage || self.cfg.cols[0].ref_counted;
 				for k in &quartet {
-					let v = gen::random_value(&mut self.rng, false);
+					// (preimage / counted columns: the value is a function of the key)
+					let v = if contract { gen::value_for_key(k, self.big_values) } else { gen::random_value(&mut self.rng, false) };
 					tx.push(Op::Set(0, k.clone(), v));
 					if !one_tx {
 						self.commit_tx(db, rep, std::mem::take(&mut tx), None)?;
